@@ -66,11 +66,21 @@ pub fn worker_main(id: &str, tier: Tier, seed: u64, shard: u32, nshards: u32, bu
         eprintln!("HARNESS-ERROR: the monitor itself panicked in group {}", cx.group);
         return 3;
     }
-    // shrink new violations (bounded)
+    // shrink new violations (bounded in runs and in time; journalled as group 0 so that a stall
+    // here can never be mistaken for a hang of the system under test)
+    if let Some(f) = cx.journal.as_mut() {
+        use std::io::{Seek, SeekFrom, Write};
+        let _ = f.seek(SeekFrom::Start(0));
+        let _ = f.write_all(format!("0 {:<60}\n", "shrinking").as_bytes());
+    }
     let sigs: Vec<String> = cx.stats.viols.keys().cloned().collect();
+    let shrink_start = Instant::now();
     for sig in sigs.iter().take(12) {
+        if only_group.is_some() || shrink_start.elapsed() > Duration::from_secs(8) {
+            break;
+        }
         let v = cx.stats.viols.get(sig).unwrap().0.clone();
-        let small = shrink(check, &v, 250);
+        let small = shrink(check, &v, 120);
         if small.case.size() < v.case.size() {
             cx.stats.viols.get_mut(sig).unwrap().0 = small;
         }
@@ -99,8 +109,9 @@ pub fn shrink(check: &dyn Check, v: &Viol, max_runs: usize) -> Viol {
         Some(_) => {}
         None => return best,
     }
+    let t0 = Instant::now();
     let mut changed = true;
-    while changed && runs < max_runs {
+    while changed && runs < max_runs && t0.elapsed() < Duration::from_secs(3) {
         changed = false;
         for which in 0..2 {
             let len = if which == 0 { best.case.setup.len() } else { best.case.ops.len() };
@@ -110,7 +121,7 @@ pub fn shrink(check: &dyn Check, v: &Viol, max_runs: usize) -> Viol {
                 let mut i = 0;
                 loop {
                     let cur_len = if which == 0 { best.case.setup.len() } else { best.case.ops.len() };
-                    if i >= cur_len || cur_len <= min_len || runs >= max_runs {
+                    if i >= cur_len || cur_len <= min_len || runs >= max_runs || t0.elapsed() > Duration::from_secs(3) {
                         break;
                     }
                     let end = (i + chunk).min(cur_len);
@@ -293,6 +304,7 @@ pub fn run_main(o: &RunOpts) -> i32 {
             };
             // attribute to the journalled group and re-run it alone
             match read_journal(&w.out) {
+                Some((0, label)) => inconclusive.push(format!("worker {} {} in harness phase '{}'", w.shard, how, label)),
                 Some((g, label)) => {
                     let mut fails = 0;
                     let mut last = String::new();
